@@ -220,7 +220,13 @@ func (s *Sim) Learn(st *Step) {
 	if s.RememberActive() && rec.Kind == "http" {
 		if v := rec.CookiesIn["rm"]; v != "" && rec.SessIn["uid"] == "" {
 			if c := s.Cookies[v]; c != nil && c.State == Live {
-				if SessPutAny(rec, "uid", c.PID) {
+				consumed := false
+				for _, call := range rec.Calls {
+					if call.Op == "UseRememberToken" && call.Arg == c.PID && call.Result == "" {
+						consumed = true // the server's token table reported the token as used up
+					}
+				}
+				if SessPutAny(rec, "uid", c.PID) || consumed {
 					c.State = Spent
 				} else {
 					c.State = Limbo
@@ -269,6 +275,13 @@ func (s *Sim) Learn(st *Step) {
 				if v, ok := SessPut(rec, "uid"); ok && v == ac.PID {
 					o.State = Spent
 				}
+				// consumed durably (its stored form is gone) although the request did not complete
+				if b, af := rec.Before.Users[ac.PID], rec.After.Users[ac.PID]; b != nil && af != nil {
+					h := Sha512B64(a.Secret)
+					if strings.Contains(b.OTPs, h) && !strings.Contains(af.OTPs, h) {
+						o.State = Spent
+					}
+				}
 				for _, k := range []string{"totp_pending", "sms_pending"} {
 					if v, ok := SessPut(rec, k); ok && v == ac.PID {
 						o.State = Spent
@@ -314,6 +327,17 @@ func (s *Sim) Learn(st *Step) {
 		if sub != nil {
 			if c := find(sub.Recov, a.Secret2); c != nil && c.State == Live {
 				c.State = Limbo
+				if b, af := rec.Before.Users[sub.PID], rec.After.Users[sub.PID]; b != nil && af != nil && len(strings.Split(af.RecoveryCodes, ",")) < len(strings.Split(b.RecoveryCodes, ",")) {
+					still := false
+					for _, h := range strings.Split(af.RecoveryCodes, ",") {
+						if h != "" && BcryptOK(h, a.Secret2) {
+							still = true
+						}
+					}
+					if !still {
+						c.State = Spent // durably consumed even if the request then failed
+					}
+				}
 				if strings.HasSuffix(a.Kind, "_validate") {
 					if v, ok := SessPut(rec, "uid"); ok && v == sub.PID {
 						c.State = Spent
